@@ -8,6 +8,7 @@ import (
 	"os"
 	"runtime/debug"
 	"runtime/pprof"
+	"strings"
 	"time"
 
 	"verif/checkmain"
@@ -19,25 +20,25 @@ func main() {
 	// the searches allocate a few KB each on a live heap of a few MB: with the default
 	// GC pacing a third of the CPU goes into collections
 	debug.SetGCPercent(1600)
-	initBoolFamilies()
-	initVocab()
-	tdCorp = tdCorpora()
-	initTDQueries()
-	initPhraseCorpus()
-	initPhraseQueries()
-	initMix()
 	// the value tables depend on the tier; workers and replays receive the tier as
 	// the enumeration parameter, so the tables are built lazily per parameter
+	// every enumeration builds its tables on first use (a worker process serves one enumeration)
 	explore.RegisterEnum("c07-bool", boolTotalOf("main"), boolEvalOf("main"))
 	explore.RegisterEnum("c07-bool-deep", boolTotalOf("deep"), boolEvalOf("deep"))
-	explore.RegisterEnum("c07-termdict", tdTotal, tdEval)
-	explore.RegisterEnum("c07-phrase", phraseTotal, phraseEval)
-	explore.RegisterEnum("c07-mixed", mixTotal, mixEval)
+	explore.RegisterEnum("c07-termdict", func(p string) int64 { ensureTD(); return tdTotal(p) },
+		func(i int64, p string) *explore.Result { ensureTD(); return tdEval(i, p) })
+	explore.RegisterEnum("c07-phrase", func(p string) int64 { ensurePhrase(); return phraseTotal(p) },
+		func(i int64, p string) *explore.Result { ensurePhrase(); return phraseEval(i, p) })
+	explore.RegisterEnum("c07-mixed", func(p string) int64 { ensurePhrase(); return mixTotal(p) },
+		func(i int64, p string) *explore.Result { ensurePhrase(); return mixEval(i, p) })
 	explore.RegisterEnum("c07-numeric", withTables(numTotal), withTablesE(numEval))
 	explore.RegisterEnum("c07-date", withTables(dateTotal), withTablesE(dateEval))
 	explore.RegisterEnum("c07-geo", withTables(geoTotal), withTablesE(geoEval))
 	explore.WorkerMain()
 	c := checkmain.New("C07")
+	ensureBool()
+	ensureTD()
+	ensurePhrase()
 	if v := c.IsReplay(); v != nil {
 		c.RunReplay(v)
 	}
@@ -114,6 +115,19 @@ func main() {
 		tier = "thorough"
 	}
 	run := func(name, param string, budget time.Duration, chunk int64) {
+		// the small enumerations use at most 6 worker processes (starting a worker costs more than
+		// most of their cases)
+		if !strings.HasPrefix(name, "c07-bool") && explore.Workers() > 6 {
+			old, had := os.LookupEnv("VERIF_WORKERS")
+			os.Setenv("VERIF_WORKERS", "6")
+			defer func() {
+				if had {
+					os.Setenv("VERIF_WORKERS", old)
+				} else {
+					os.Unsetenv("VERIF_WORKERS")
+				}
+			}()
+		}
 		st := explore.Enumerate(explore.EnumConfig{Name: name, Param: param, Budget: budget, MaxViol: 40, Chunk: chunk, CrashIsViolation: true})
 		c.AddEnum(st)
 		if os.Getenv("C07_DEBUG_KEYS") != "" {
@@ -126,23 +140,52 @@ func main() {
 			}
 		}
 	}
-	small := c.PickD(15*time.Second, 60*time.Second)
-	run("c07-termdict", tier, small, 0)
-	run("c07-phrase", tier, small, 0)
-	run("c07-mixed", tier, small, 0)
-	run("c07-numeric", tier, small, 0)
-	run("c07-date", tier, small, 0)
-	run("c07-geo", tier, c.PickD(15*time.Second, 60*time.Second), 0)
-	run("c07-bool-deep", tier, c.PickD(12*time.Second, 100*time.Second), 1)
+	q := func(quick, thorough int) time.Duration {
+		return c.PickD(time.Duration(quick)*time.Second, time.Duration(thorough)*time.Second)
+	}
+	run("c07-termdict", tier, q(5, 20), 8)
+	run("c07-phrase", tier, q(8, 30), 8)
+	run("c07-mixed", tier, q(8, 40), 8)
+	run("c07-numeric", tier, q(6, 40), 8)
+	run("c07-date", tier, q(5, 30), 8)
+	run("c07-geo", tier, q(8, 50), 2)
+	run("c07-bool-deep", tier, q(7, 80), 2)
 	if c.Thorough() {
 		// stage a always completes; b and c are long and may be cut by their budgets (exhaustive:false)
-		run("c07-bool", "thorough-a", 100*time.Second, 8)
-		run("c07-bool", "thorough-b", 120*time.Second, 8)
-		run("c07-bool", "thorough-c", 100*time.Second, 4)
+		run("c07-bool", "thorough-a", 90*time.Second, 2)
+		run("c07-bool", "thorough-b", 110*time.Second, 2)
+		run("c07-bool", "thorough-c", 90*time.Second, 2)
 	} else {
-		run("c07-bool", "quick", 30*time.Second, 8)
+		run("c07-bool", "quick", 20*time.Second, 2)
 	}
 	c.Finish()
+}
+
+var boolReady, tdReady, phraseReady bool
+
+func ensureBool() {
+	if !boolReady {
+		boolReady = true
+		initBoolFamilies()
+	}
+}
+
+func ensureTD() {
+	if !tdReady {
+		tdReady = true
+		initVocab()
+		tdCorp = tdCorpora()
+		initTDQueries()
+	}
+}
+
+func ensurePhrase() {
+	if !phraseReady {
+		phraseReady = true
+		initPhraseCorpus()
+		initPhraseQueries()
+		initMix()
+	}
 }
 
 var tablesFor = ""
